@@ -84,10 +84,29 @@ def swap(ctx):
     return True
 
 
+def tcpswap(ctx):
+    """table replacement vs connections on the tcp paths (the lookup of a connection comes from one table)"""
+    r = ctx.gotest("proxy/tcp", ["proxy/tcp/c02_test.go", "proxy/tcp/c02_wire_test.go"], "^TestVerifC02TCPSwap$", race=True, timeout=600,
+                   env={"VERIF_CONNS": ctx.pick(800, 8000)})
+    if "WARNING: DATA RACE" in r.out and "fabio/proxy/tcp." in r.out and "zz_verif" not in r.out.split("WARNING: DATA RACE")[1][:1500]:
+        ctx.violation({"sub": "tcpswap", "race": True}, "data race between table installation and tcp connections:\n" + r.out[:3000],
+                      replay={"sub": "tcpswap-race", "case": None})
+        return True
+    if not ctx.need_go_ok(r, "C02 tcp swap"):
+        return False
+    s = r.summary
+    ctx.log("tcp swap: %d connections on tcp and tcp-dynamic listeners while two tables alternate, %d answered from a mixture" % (s["connections"], s["mixed"]))
+    ctx.cover("tcpswap", traces_validated_against_impl=2, evaluations=s["connections"])
+    ctx.take_failures(r, "tcpswap")
+    return True
+
+
 def run(ctx):
     if not hostile(ctx):
         return
-    swap(ctx)
+    if not swap(ctx):
+        return
+    tcpswap(ctx)
 
 
 def replay(ctx, rp):
